@@ -316,7 +316,7 @@ def run(ctx):
     maxlen = ctx.pick(2, 4)
     ctx.rule = ('all operation sequences of length <= %d over 2 keys (GET, MEM, UPDATE Some/None, GET_AND_UPDATE Some/None) x every split '
                 'of the keys between on-chain content and none, for big maps referenced by id (entries served by a simulated node), '
-                'literal big maps and empty ones; random sequences <= 25 over 4 keys for 8 key types (nat, string, pair, or, option, '
+                'literal big maps and empty ones; random sequences <= 25 over 4 keys for 8 key types and of 30-80 operations over 24 keys (nat, string, pair, or, option, '
                 'nested pair, bytes, address); observations, lazy diff applied to the on-chain content, key hashes and node lookups '
                 'checked; plus the (key, key_hash) pairs mainnet recorded in the lazy storage diffs shipped with the repository tests, and the lazy '
                 'diffs of the recorded calls of those contracts vs the reference interpreter; for a comb key of 4 leaves only the consistency of lookup hash and diff hash is judged (layout not fixed by the property)' % maxlen)
@@ -344,6 +344,18 @@ def run(ctx):
         content = [(k, rng.randint(100, 199)) for k in chosen]
         ops = [rng.choice(alphabet(keys)) for _ in range(rng.randint(1, 25))]
         mode = rng.choice(['onchain', 'onchain', 'literal'])
+        judge(ctx, kt, content if mode == 'onchain' else [], content if mode == 'literal' else [], ops, mode)
+    # long histories over two dozen keys: diffs that grow past 9, 10, 11 ... written and removed entries
+    for j in range(ctx.pick(40, 600) // ctx.nshards + 1):
+        kt, keys = (T.NAT, list(range(24))) if j % 2 == 0 else (T.STRING, ['k%02d' % q for q in range(24)])
+        chosen = [k for k in keys if rng.random() < 0.5]
+        content = [(k, rng.randint(100, 199)) for k in chosen]
+        ops = []
+        for _ in range(rng.randint(30, 80)):
+            k = rng.choice(keys)
+            ops.append(rng.choice([('upd', k, ('Some', rng.randint(1, 50))), ('upd', k, ('Some', 7)), ('upd', k, None), ('gau', k, None), ('gau', k, ('Some', 9)), ('get', k), ('mem', k)]))
+        mode = rng.choice(['onchain', 'onchain', 'literal'])
+        ctx.count('long_histories_over_24_keys')
         judge(ctx, kt, content if mode == 'onchain' else [], content if mode == 'literal' else [], ops, mode)
     judge_onchain_hashes(ctx)
     if ctx.mine(1):
